@@ -56,6 +56,10 @@ var reviewedDropped = map[string]string{
 }
 
 func runC08(p *Prog, r *Report) {
+	if want("C08.20") {
+		// (shared with C04)
+		ruleTornEditIsCorruption(p, r, "C08.20")
+	}
 	if want("C08.19") {
 		// a damaged compaction input stops the compaction
 		ruleCompactionInputsStrict(p, r, "C08.19")
